@@ -133,6 +133,19 @@ def check_function(ctx, modname, name, f, inline, n_random):
         if fp(c) != fp(b):
             ctx.violation("tag-function-shares-state", "mutating one %s.%s() result shows up in a later call" % (modname, name), wit)
             return
+    # an attribute map taken from another element is passed through like by Tag(): the new element gets its own map
+    src = ht.Tag("z", id="i", class_="c")
+    snap = fp(src)
+    for mk_ in (lambda: f(src.attrs), lambda: f(src.attrs, "kid")):
+        t_ = mk_()
+        if t_.attrs is src.attrs:
+            ctx.violation("tag-function-shares-state", "%s.%s(other.attrs) uses the other element's attribute map object" % (modname, name), wit)
+            return
+        t_.add_class("q")
+        t_.attrs["x"] = "y"
+        if fp(src) != snap:
+            ctx.violation("tag-function-shares-state", "changing the result of %s.%s(other.attrs) changed the other element" % (modname, name), wit)
+            return
     # pass-through: deterministic probes first (every function gets the same argument shapes), then random lists
     T = lambda s_: {"k": "text", "s": s_}
     probes = [{"kids": [T(x)], "dicts": [], "kw": []} for x in ("\nx", "\n", " lead", "trail ", "\t", "", "<b>&amp;", "\r\nq", "a\nb")]
@@ -143,6 +156,8 @@ def check_function(ctx, modname, name, f, inline, n_random):
                {"kids": [gen.TAG("span", T("\nin"), ws=False)], "dicts": [], "kw": [["title", S_("\nt")]]},
                {"kids": [], "dicts": [[["xlink:href", S_("#a")]]], "kw": [["xlink_href", S_("#b")], ["xml_lang", S_("en")], ["data_x_y", S_("1")], ["aria_label", S_("l")]]},
                {"kids": [T("k")], "dicts": [], "kw": [["class_", S_("c")], ["for_", S_("f")], ["http_equiv", S_("r")], ["accept_charset", S_("u")], ["x__", S_("d")]]},
+               {"kids": [], "dicts": [], "kw": [["target", S_("_blank")], ["href", S_("/x")]]},
+               {"kids": [T("t")], "dicts": [[["target", S_("_blank")]]], "kw": [["download", {"t": "true"}], ["rel", S_("me")], ["type", S_("button")], ["role", S_("r")]]},
                # the order of keyword attributes is the caller's order, whatever the names are
                {"kids": [], "dicts": [], "kw": [["class_", S_("c")], ["href", S_("/x")], ["id", S_("i")], ["src", S_("s")], ["name", S_("n")], ["type", S_("t")], ["value", S_("v")]]},
                {"kids": [], "dicts": [], "kw": [["value", S_("v")], ["type", S_("t")], ["name", S_("n")], ["src", S_("s")], ["id", S_("i")], ["href", S_("/x")], ["class_", S_("c")],
